@@ -59,6 +59,9 @@ class CacheWorld:
         ["readme.txt", "f", "readme\n"], ["zeta.c", "f", "int z;\n"], ["page.html", "f", "<html><title>Page Title</title></html>\n"],
         ["a/one.txt", "f", "1\n"], ["a/two.gif", "f", "GIF89a"], ["a/c/deep.txt", "f", "deep\n"], ["a/c/x.pdf", "f", "%PDF"],
         ["b/only.txt", "f", "only\n"], ["a/c/.abstract", "f", "about c\n"], ["a/empty.txt", "f", ""], ["nil.dat", "f", ""], ["zalias", "l", "a"],
+        # sidecars that only Gopher+ item information shows: an entry cached by one protocol carries them for every reader
+        ["a/one.txt.keywords", "f", "one, first\n"], ["a/one.txt.ask", "f", "Ask: Name?\n"], ["readme.txt.3d", "f", "3d\n"],
+        ["b/only.txt.keywords", "f", "only\n"], ["a/c/deep.txt.abstract", "f", "deep abstract\n"],
     ]
 
     def __init__(self, lifetime, ctx=None):
